@@ -22,6 +22,9 @@ PREFIXES = [
     ('cryptoparser.httpx.header.HttpHeaderFieldSetCookie', b'Set-Cookie: a=b; ', 2),
     ('cryptoparser.httpx.header.HttpHeaderFieldDate', b'Date: ', 2),
     ('cryptoparser.httpx.header.HttpHeaderFieldContentType', b'Content-Type: text/', 2),
+    # binary formats whose interesting field sits behind flag words that explode symbolically
+    ('cryptoparser.tls.mysql.MySQLHandshakeSslRequest', b'\x00\x08', 3),
+    ('cryptoparser.tls.mysql.MySQLHandshakeSslRequest', b'\x00\x0a\x00\x00', 4),
 ]
 
 
